@@ -593,6 +593,12 @@ static void run_case(const std::string& id, bool newxta, std::vector<Cmd>& cmds)
                     int r = parse_XML_fd(fd, doc.get(), newxta);
                     printf("ret %d\n", r);
                 }
+            } else if (c.op == "OTHER") {
+                // C15: a whole model parsed into a document of its own between two calls on this case's document (the documents of a process are independent objects;
+                // only process-global state can make the later call notice)
+                Document other;
+                int r = c.arg == "xml" ? parse_XML_buffer(c.data.c_str(), &other, newxta) : (parse_XTA(c.data.c_str(), &other, newxta) ? 1 : 0);
+                printf("other ret %d errors %zu\n", r, other.get_errors().size());
             } else if (c.op == "TRACE") {
                 // callbacks with the heights of the three builder stacks before and after (C01 / C16 effect-table tie)
                 if (c.arg == "prop") {
@@ -795,7 +801,7 @@ int main(int argc, char** argv)
             std::istringstream ls(line);
             Cmd c;
             ls >> c.op;
-            if (c.op == "MODEL" || c.op == "PART" || c.op == "PRETTY" || c.op == "TRACE") { size_t n = 0; ls >> c.arg >> n; c.data = read_bytes(n); }
+            if (c.op == "MODEL" || c.op == "PART" || c.op == "PRETTY" || c.op == "TRACE" || c.op == "OTHER") { size_t n = 0; ls >> c.arg >> n; c.data = read_bytes(n); }
             else if (c.op == "EXPR" || c.op == "TEXPR" || c.op == "RT" || c.op == "LAWS" || c.op == "PRETTYQ" || c.op == "PAIR" || c.op == "QLAWS") { size_t n = 0; ls >> n; c.data = read_bytes(n); }
             else if (c.op == "QUERY") { size_t n = 0; std::string a; ls >> a; if (isdigit((unsigned char)a[0])) { n = atol(a.c_str()); } else { c.arg = a; ls >> n; } c.data = read_bytes(n); }
             else ls >> c.arg;
